@@ -321,10 +321,9 @@ func (x *Exec) verifyRoot() {
 			if v.S != "" && v.T != nil {
 				x.assume(st, x.wf(v.S, v.T, st, 0))
 			}
-			reg, _ := x.regionOf(v)
+			reg, et := x.regionOf(v)
 			reg = x.S.Define("modreg", "Int", reg)
-			x.modRegs = append(x.modRegs, reg)
-			parts = append(parts, "(not (= "+x.rf+" "+reg+"))")
+			x.modRegs = append(x.modRegs, modReg{reg, x.te.HeapKey(et)})
 		}
 		x.assume(st, And(parts...))
 	} else {
@@ -341,48 +340,80 @@ func (x *Exec) verifyRoot() {
 	}
 	// postconditions
 	if ct != nil {
-		post := &SpecCtx{x: x, st: out, old: entrySnap, vars: map[string]Val{}, pkg: pkgOf(fn)}
-		for k, v := range x.rootArgs {
-			post.vars[k] = v
-		}
-		var res Val
-		switch len(rets) {
-		case 0:
-		case 1:
-			res = rets[0]
-			if res.DP != nil {
-				res = Val{S: x.ptrTerm(res), T: fn.Signature.Results().At(0).Type()}
+		mkPost := func(pst *State, prets []Val) *SpecCtx {
+			post := &SpecCtx{x: x, st: pst, old: entrySnap, vars: map[string]Val{}, pkg: pkgOf(fn)}
+			for k, v := range x.rootArgs {
+				post.vars[k] = v
 			}
-		default:
-			for i := range rets {
-				if rets[i].DP != nil {
-					rets[i] = Val{S: x.ptrTerm(rets[i]), T: fn.Signature.Results().At(i).Type()}
+			rets := append([]Val(nil), prets...)
+			var res Val
+			switch len(rets) {
+			case 0:
+			case 1:
+				res = rets[0]
+				if res.DP != nil {
+					res = Val{S: x.ptrTerm(res), T: fn.Signature.Results().At(0).Type()}
 				}
+			default:
+				for i := range rets {
+					if rets[i].DP != nil {
+						rets[i] = Val{S: x.ptrTerm(rets[i]), T: fn.Signature.Results().At(i).Type()}
+					}
+				}
+				res = Val{Tup: rets}
 			}
-			res = Val{Tup: rets}
-		}
-		bindResults(post.vars, fn, res)
-		// captured variables: current value in the post-state, entry value inside old()
-		for _, fv := range fn.FreeVars {
-			if bv, ok := fr.env[fv]; ok && bv.DP != nil && bv.DP.Cell != nil {
-				if cur, ok := out.cells[*bv.DP.Cell]; ok && cur.Clo == nil && cur.Fn == nil && cur.DP == nil && cur.S != "!unmergeable" {
-					if entry, ok := x.rootArgs[fv.Name()]; ok && entry.S != cur.S {
-						if post.oldVars == nil {
-							post.oldVars = map[string]Val{}
+			bindResults(post.vars, fn, res)
+			// captured variables: current value in the post-state, entry value inside old()
+			for _, fv := range fn.FreeVars {
+				if bv, ok := fr.env[fv]; ok && bv.DP != nil && bv.DP.Cell != nil {
+					if cur, ok := pst.cells[*bv.DP.Cell]; ok && cur.Clo == nil && cur.Fn == nil && cur.DP == nil && cur.S != "!unmergeable" {
+						if entry, ok := x.rootArgs[fv.Name()]; ok && entry.S != cur.S {
+							if post.oldVars == nil {
+								post.oldVars = map[string]Val{}
+							}
+							post.oldVars[fv.Name()] = entry
+							post.vars[fv.Name()] = cur
 						}
-						post.oldVars[fv.Name()] = entry
-						post.vars[fv.Name()] = cur
 					}
 				}
 			}
+			return post
 		}
-		for j, cl := range ct.Ensures {
-			if ct.AssumeInv && strings.HasPrefix(cl.Name, "typeinv-") {
-				x.note("type invariant of the result of " + x.rootKey + " is assumed, not proved (assumeinv)")
-				continue
+		if len(x.rootExits) > 1 {
+			// one obligation per clause: the conjunction, over the exits, of
+			// "this exit's path condition implies the clause in this exit's state"
+			posts := make([]*SpecCtx, len(x.rootExits))
+			for i, e := range x.rootExits {
+				posts[i] = mkPost(e.st, e.rets)
 			}
-			g := x.evalClause(post, cl)
-			x.emitNamed(out, fmt.Sprintf("post#%s", clauseLabel(cl, j)), "post", nil, fn.Pos(), g, "postcondition: "+cl.Src)
+			base := out.clone()
+			base.pc = "true"
+			for j, cl := range ct.Ensures {
+				if ct.AssumeInv && strings.HasPrefix(cl.Name, "typeinv-") {
+					x.note("type invariant of the result of " + x.rootKey + " is assumed, not proved (assumeinv)")
+					continue
+				}
+				var parts, gs []string
+				for i, e := range x.rootExits {
+					g := x.evalClause(posts[i], cl)
+					gs = append(gs, g)
+					parts = append(parts, Imp(e.st.pc, g))
+				}
+				x.emit(base, x.rootKey+"/"+fmt.Sprintf("post#%s", clauseLabel(cl, j)), "post", x.rootKey, fn.Pos(), And(parts...), "postcondition: "+cl.Src)
+				for i, e := range x.rootExits {
+					x.assume(e.st, gs[i])
+				}
+			}
+		} else {
+			post := mkPost(out, rets)
+			for j, cl := range ct.Ensures {
+				if ct.AssumeInv && strings.HasPrefix(cl.Name, "typeinv-") {
+					x.note("type invariant of the result of " + x.rootKey + " is assumed, not proved (assumeinv)")
+					continue
+				}
+				g := x.evalClause(post, cl)
+				x.emitNamed(out, fmt.Sprintf("post#%s", clauseLabel(cl, j)), "post", nil, fn.Pos(), g, "postcondition: "+cl.Src)
+			}
 		}
 	}
 	// frame: heaps changed since entry keep the skolem region
